@@ -16,6 +16,8 @@ for name in sorted(os.listdir(f"{V}/seeded")):
     if not os.path.isdir(d) or (only and name not in only):
         continue
     meta = json.load(open(f"{d}/meta.json"))
+    if meta.get("retired"):
+        continue
     targets = checks_for.get(name) or [meta["property"]]
     targets = [t for t in targets if t in claimed]
     r = subprocess.run(["git", "-C", WT, "apply", f"{d}/patch.diff"], capture_output=True, text=True)
